@@ -25,9 +25,9 @@ open Conv
    FLIP a constant to true when the corresponding patch is committed in /repo, and turn the matching
    `finding:` line of known_findings.txt into a `fixed:` line (see patches/C20-README.txt). *)
 let coalesce_fixed = true
-let repair_traversal = false
-let repair_closures = false
-let repair_assert = false
+let repair_traversal = true
+let repair_closures = true
+let repair_assert = true
 let repairs_in_repo = { r_traversal = repair_traversal; r_closures = repair_closures; r_assert = repair_assert }
 
 let rec nat_of_int (i : int) : nat = if i <= 0 then O else S (nat_of_int (i - 1))
